@@ -216,6 +216,9 @@ class Bounds:
         k = t[0]
         if k == 'const':
             return isinstance(t[1], int) and t[1] >= 1
+        # the very value the constructor stores in Runner.max_num_threads (proved >= 1 by case analysis in C15-CLAMP)
+        if self.invariant_max() and t in self.ctx.cache.get('I-max-terms', ()):
+            return True
         if k == 'set':
             return all(self.lb1(x, b, r, pc, depth + 1) for x in t[1])
         if k == 'param':
@@ -333,17 +336,46 @@ def prove_invariants(ctx):
     r = ctx.run0(new.name)
     lits = sum(1 for b in F.fn_bodies() for blk in b.blocks.values() for st in blk['stmts']
                if st['rv']['r'] == 'agg' and st['rv'].get('ak') == 'adt' and st['rv'].get('adt') == RUNNER)
-    ret = r.ret
-    if lits != 1 or ret[0] != 'variant' or ret[1] != RUNNER:
-        rep.append(('literal', False, '%d Runner literals; Runner::new returns %s' % (lits, t_str(ret)[:80])))
-        ctx.cache['I-done'] = True
-        ctx.cache['I-report'] = rep
-        return rep
     mi = F.field_index(RUNNER, 'max_num_threads')
     ci = F.field_index(RUNNER, 'chunk_size')
-    okm = B.lb1(ret[3][mi], new, r)
-    rep.append(('max_num_threads>=1', okm, t_str(ret[3][mi])[:120]))
+    # case split on integer switches of the constructor (`match n { 0 => 1, n => n }`): finite, enumerated as seeds
+    splits = [d for (d, tg) in r.switches.values() if d[0] not in ('discr', 'const', 'set') and len(tg) > 1][:3]
+    runs = []
+    if not splits:
+        runs.append((r, frozenset()))
+    else:
+        import itertools
+        for choice in itertools.product((0, 1), repeat=len(splits)):
+            def atoms(t, choice=choice):
+                for d, c in zip(splits, choice):
+                    if t == d:
+                        return 0 if c == 0 else (1 << 63)
+                return None
+            rr = ctx.opa0.run(new.name, seeds={'atoms': atoms, 'key': ('clamp', choice)})
+            pc = rr.returns[-1][2] if rr.returns else frozenset()
+            runs.append((rr, pc))
+    okm = True
+    why_m = ''
+    ret = None
+    for (rr, pc) in runs:
+        ret = rr.ret
+        if lits != 1 or ret[0] != 'variant' or ret[1] != RUNNER:
+            rep.append(('literal', False, '%d Runner literals; Runner::new returns %s' % (lits, t_str(ret)[:80])))
+            ctx.cache['I-done'] = True
+            ctx.cache['I-report'] = rep
+            return rep
+        if not B.lb1(ret[3][mi], new, rr, pc):
+            okm = False
+        ctx.cache.setdefault('I-max-terms', set()).add(ret[3][mi])
+        why_m = t_str(ret[3][mi])[:120]
+    rep.append(('max_num_threads>=1', okm, why_m + (' (%d case splits)' % len(runs) if len(runs) > 1 else '')))
     ctx.cache['I-max'] = okm
+    r_plain = ctx.run0(new.name)
+    for alt in alternatives(r_plain.ret):
+        if alt[0] == 'variant' and alt[1] == RUNNER:
+            ctx.cache.setdefault('I-max-terms', set()).add(alt[3][mi])
+    r = r_plain
+    ret = [a for a in alternatives(r_plain.ret) if a[0] == 'variant' and a[1] == RUNNER][-1]
     # chunk: calc_chunk_size(..) -> every returned variant's payload >= 1 (validate returns self)
     ct = ret[3][ci]
     okc = False
